@@ -11,6 +11,7 @@
 #define Y_MO 0
 #define Y_VACUITY_PROBE() __CPROVER_assert(0, "Y_VACUITY_PROBE")
 #define Y_PAUSE() ((void)0)
+#define Y_THREAD_JOIN(p) (*(p) = 0)   /* std::thread is an int: 1 = started and not yet joined */
 /* std::thread creation (parallel destroy) is not modelled: proved unreachable because destroy_manager::check_room() is false when hardware_concurrency_ == 0 */
 #define Y_THREAD_SPAWN_NOT_MODELLED() __CPROVER_assert(0, "thread creation not modelled (must be unreachable)")
 #define Y_HW_CONCURRENCY() ((uint64_t)0)
@@ -25,7 +26,12 @@ unsigned y_log_error;
 /* std::array<T,N>: struct { T a[N]; }.  .at(i) is an in-bounds obligation (CBMC --bounds-check on a[i]);
  * an out-of-range index would throw and terminate the real program. */
 #define Y_AT(p, i, N) (&(p)->a[(i)])
-#ifndef Y_ARR_END
+/* range-for end pointer. With -DY_SYMBOLIC_TABLE=<cap> the array of that capacity (the session table) is iterated up to a
+ * symbolic configured capacity y_table_n <= cap, so that one proof covers every YAKUSHIMA_MAX_PARALLEL_SESSIONS. */
+uint64_t y_table_n;
+#ifdef Y_SYMBOLIC_TABLE
+#define Y_ARR_END(p, N) (&(p)->a[0] + ((N) == Y_SYMBOLIC_TABLE ? y_table_n : (uint64_t)(N)))
+#else
 #define Y_ARR_END(p, N) (&(p)->a[0] + (N))
 #endif
 #define Y_FILL(p, N, v) { for (unsigned y_i = 0; y_i < (N); ++y_i) (p)->a[y_i] = (v); }
@@ -64,7 +70,8 @@ static inline y_sv y_sv_from_cstr(const char* s) { y_sv r; r.data = s; r.size = 
 static inline void y_sv_remove_prefix(y_sv* s, uint64_t n) { s->data += n; s->size -= n; }
 /* compare: abstracted to its sign through a ghost oracle that is consistent with length-0 cases; units that need the
  * exact byte semantics define Y_SV_COMPARE_EXACT */
-int y_sv_compare_oracle(y_sv a, y_sv b);
+int __CPROVER_uninterpreted_svcmp(const char*, uint64_t, const char*, uint64_t);   /* same arguments => same result */
+#define y_sv_compare_oracle(a, b) __CPROVER_uninterpreted_svcmp((a).data, (a).size, (b).data, (b).size)
 static inline int y_sv_compare(y_sv* a, y_sv b)
 {
 #ifdef Y_SV_COMPARE_EXACT
@@ -135,28 +142,31 @@ static inline void* y_int2ptr(uint64_t x)
 /* ghost event clock for store ordering */
 unsigned y_ev;
 
+/* ghost counters saturate (never wrap) */
+#define Y_SAT_INC(x) ((x) += ((x) != 0xffffffffu))
 /* std::atomic<T> / __atomic builtins: one sequentially consistent step each (memory orders dropped).
  * y_g_<S>.arb != 0 selects arbitrary-interference mode for that value type: loads return any value, a CAS succeeds or
  * fails nondeterministically (on failure `expected` receives any value). Stores always hit memory. */
 #define Y_DEFINE_ATOMIC(T, S) \
   T nondet_##S(void); \
   typedef struct y_ghost_##S { _Bool arb; unsigned ld_cnt; T ld_val; T* ld_loc; unsigned cas_ok; unsigned cas_fail; T cas_old; T cas_new; T* cas_loc; \
-                               unsigned st_cnt; T st_val; T* st_loc; unsigned st_ev; unsigned cas_ev; } y_ghost_##S; \
+                               unsigned st_cnt; T st_val; T* st_loc; unsigned st_ev; unsigned cas_ev; T cas_seen; } y_ghost_##S; \
   y_ghost_##S y_g_##S; \
   static inline T Y_LOAD_##S(T* loc) { T v; if (y_g_##S.arb) v = nondet_##S(); else v = *loc; \
-    y_g_##S.ld_cnt++; y_g_##S.ld_val = v; y_g_##S.ld_loc = loc; return v; } \
-  static inline void Y_STORE_##S(T* loc, T v) { *loc = v; y_g_##S.st_cnt++; y_g_##S.st_val = v; y_g_##S.st_loc = loc; y_g_##S.st_ev = ++y_ev; } \
+    Y_SAT_INC(y_g_##S.ld_cnt); y_g_##S.ld_val = v; y_g_##S.ld_loc = loc; return v; } \
+  static inline void Y_STORE_##S(T* loc, T v) { *loc = v; Y_SAT_INC(y_g_##S.st_cnt); y_g_##S.st_val = v; y_g_##S.st_loc = loc; y_g_##S.st_ev = ++y_ev; } \
   static inline _Bool Y_CAS_##S(T* loc, T* expected, T desired) { \
     _Bool ok; \
     if (y_g_##S.arb) ok = nondet_bool(); else ok = (y_memcmp16(loc, expected, sizeof(T)) == 0) && nondet_bool(); \
-    if (ok) { y_g_##S.cas_ok++; y_g_##S.cas_old = *expected; y_g_##S.cas_new = desired; y_g_##S.cas_loc = loc; y_g_##S.cas_ev = ++y_ev; *loc = desired; return 1; } \
-    y_g_##S.cas_fail++; \
+    if (ok) { Y_SAT_INC(y_g_##S.cas_ok); y_g_##S.cas_old = *expected; y_g_##S.cas_new = desired; y_g_##S.cas_loc = loc; y_g_##S.cas_ev = ++y_ev; *loc = desired; return 1; } \
+    Y_SAT_INC(y_g_##S.cas_fail); \
     if (y_g_##S.arb) *expected = nondet_##S(); else *expected = *loc; \
+    y_g_##S.cas_seen = *expected; \
     return 0; }
 
 #define Y_DEFINE_ATOMIC_ARITH(T, S) \
-  static inline T Y_FADD_##S(T* loc, T d) { T o = *loc; *loc = (T)(o + d); y_g_##S.st_cnt++; y_g_##S.st_val = *loc; y_g_##S.st_loc = loc; y_g_##S.st_ev = ++y_ev; return o; } \
-  static inline T Y_FSUB_##S(T* loc, T d) { T o = *loc; *loc = (T)(o - d); y_g_##S.st_cnt++; y_g_##S.st_val = *loc; y_g_##S.st_loc = loc; y_g_##S.st_ev = ++y_ev; return o; }
+  static inline T Y_FADD_##S(T* loc, T d) { T o = *loc; *loc = (T)(o + d); Y_SAT_INC(y_g_##S.st_cnt); y_g_##S.st_val = *loc; y_g_##S.st_loc = loc; y_g_##S.st_ev = ++y_ev; return o; } \
+  static inline T Y_FSUB_##S(T* loc, T d) { T o = *loc; *loc = (T)(o - d); Y_SAT_INC(y_g_##S.st_cnt); y_g_##S.st_val = *loc; y_g_##S.st_loc = loc; y_g_##S.st_ev = ++y_ev; return o; }
 
 /* concurrent_queue<T>: ghost FIFO; try_pop may fail spuriously while the queue is non-empty (TBB allows it under contention) */
 #ifndef Y_QUEUE_CAP
